@@ -406,25 +406,28 @@ refusals (nullable, alias of nullable, not a primitive / union) -/
 theorem fieldDefault_ok {E : Ext} {C : CExt} {us : List CUnion} {t : IrTy} {lit d : Lit}
     (h : fieldDefault E C us t lit = .ok d) :
     coerceDefault E t lit = .ok d ∧ check E C us t d = .ok () ∧ t.isNullableLit = false ∧
-      (unwrapAliases t).isNullableLit = false ∧ defaultable (unwrapAll t) = true := by
+      (unwrapAliases t).isNullableLit = false ∧ defaultable (unwrapAll t) = true ∧ isVoidLit (unwrapAliases t) = false := by
   have key : ∀ (t : IrTy), t.isNullableLit = false → populateDefault E C us t lit = .ok d →
       coerceDefault E t lit = .ok d ∧ check E C us t d = .ok () ∧ t.isNullableLit = false ∧
-        (unwrapAliases t).isNullableLit = false ∧ defaultable (unwrapAll t) = true := by
+        (unwrapAliases t).isNullableLit = false ∧ defaultable (unwrapAll t) = true ∧ isVoidLit (unwrapAliases t) = false := by
     intro t hn h
     unfold populateDefault at h
     split at h
     · simp [invalid] at h
-    · rename_i h1
+    · rename_i h0
       split at h
       · simp [invalid] at h
-      · rename_i h2
-        cases hc : coerceDefault E t lit with
-        | error e => simp [hc] at h
-        | ok d' =>
-          simp only [hc] at h
-          obtain ⟨h3, h4⟩ := match_check_ok h
-          subst h4
-          exact ⟨rfl, h3, hn, by simpa using h1, by simpa using h2⟩
+      · rename_i h1
+        split at h
+        · simp [invalid] at h
+        · rename_i h2
+          cases hc : coerceDefault E t lit with
+          | error e => simp [hc] at h
+          | ok d' =>
+            simp only [hc] at h
+            obtain ⟨h3, h4⟩ := match_check_ok h
+            subst h4
+            exact ⟨rfl, h3, hn, by simpa using h1, by simpa using h2, by simpa using h0⟩
   cases t
   case void => simp [fieldDefault, invalid] at h
   case nullable => simp [fieldDefault, invalid] at h
